@@ -295,6 +295,8 @@ func (c *ProtoCodecObj) Invoke(m *Machine, method string, a []Value) Value {
 		}
 		*ptr = piv
 		return Iface{}
+	case "RegisterInterface", "RegisterImplementations", "RegisterCustomTypeURL", "EnsureRegistered":
+		return nil
 	case "InterfaceRegistry":
 		return Iface{t: m.p.ntype("native.InterfaceRegistry"), v: c}
 	case "UnpackAny":
@@ -360,6 +362,7 @@ func registerProtoCodec(p *Program) {
 		}
 		return m.structEq(x.v, y.v)
 	}
+	I["github.com/cosmos/cosmos-sdk/types/msgservice.RegisterMsgServiceDesc"] = func(m *Machine, fr *Frame, fn *ssa.Function, a []Value) Value { return nil }
 	// vp.Codec(): a codec object for harnesses that need the real-codec behaviour
 	I[vpPath+"Codec"] = func(m *Machine, fr *Frame, fn *ssa.Function, a []Value) Value {
 		return Iface{t: m.p.ntype("native.ProtoCodec"), v: &ProtoCodecObj{}}
